@@ -19,11 +19,15 @@ def run(prog: Program, rep: Report):
     fp = prog.cls("FilePool", FILES_MOD)
     _MGR["fields"] = manager_fields(prog, tp)
     _MGR["self"] = prog.method(tp, "__init__").self_name
-    r1_unconditional(prog, rep, tp, fp)
-    r2_registered(prog, rep, tp, fp)
-    r3_covers(prog, rep, tp, fp)
+    rep.attempt(lambda: r1_unconditional(prog, rep, tp, fp))
+    rep.attempt(lambda: r2_registered(prog, rep, tp, fp))
+    rep.attempt(lambda: r3_covers(prog, rep, tp, fp))
     from .ownership import rule_no_class_state
-    rule_no_class_state(prog, rep, "C20.R4", [tp, fp])
+    rep.attempt(lambda: rule_no_class_state(prog, rep, "C20.R4", [tp, fp]))
+    from .mixins import rule_mixin_surface
+    rep.attempt(lambda: rule_mixin_surface(prog, rep, "C20.R5", [fp]))
+    from .oneshot import oneshot_field_rule
+    rep.attempt(lambda: oneshot_field_rule(prog, rep, "C20.R6", fp))
 
 
 class _Cleanup(Client):
